@@ -104,6 +104,8 @@ func deepCopyValue(value any) any {
 		return clone
 	case Type:
 		return typed.DeepCopy()
+	case DisjunctionType:
+		return typed.DeepCopy()
 	default:
 		return value
 	}
